@@ -82,92 +82,123 @@ func VerifHarness_Step_BasketCreate() {
 
 func VerifHarness_Step_BasketPut() {
 	req := &types.MsgPut{}
-	zzvRunStep(req, func(k Keeper, ctx context.Context) error { _, err := k.Put(ctx, req); return err },
-		func(s *zzinv.Step) {
-			if s.Err == nil {
-				var b api.Basket
-				found := zz.OrmLookup0(zzinv.TBasket, "BasketDenom", &b, req.BasketDenom)
-				zz.Assert(found, "C05 Put succeeds only into an existing basket")
-				total := zz.QInt(0)
-				for _, c := range req.Credits {
-					total = zz.QAdd(total, zz.QParse(c.Amount))
-					// C11 (only-if direction): class allowed, credit type matches
-					var bt baseapi.Batch
-					bf := zz.OrmLookup0(zzinv.TBatch, "Denom", &bt, c.BatchDenom)
-					classID := base.GetClassIDFromBatchDenom(bt.Denom)
-					var cl baseapi.Class
-					cf := zz.OrmLookup0(zzinv.TClass, "Id", &cl, classID)
-					zz.Assert(zz.And(bf, zz.OrmExists0(zzinv.TBasketClass, b.Id, classID)), "C11 Put succeeds only for credits whose class is on the basket's allowed list")
-					zz.Assert(zz.And(cf, zz.StrEq(cl.CreditTypeAbbrev, b.CreditTypeAbbrev)), "C11 Put succeeds only for credits of the basket's credit type")
-					// C11 (only-if direction): every credit's batch satisfies the date criteria
-					if b.DateCriteria != nil && bt.StartDate != nil {
-						start := bt.StartDate.AsTime()
-						now := sdk.UnwrapSDKContext(zz.Context()).BlockTime()
-						switch {
-						case b.DateCriteria.MinStartDate != nil:
-							zz.Assert(zz.Not(zz.TimeLt(start, b.DateCriteria.MinStartDate.AsTime())), "C11 Put succeeds only for batches starting at or after the basket's minimum start date")
-						case b.DateCriteria.StartDateWindow != nil:
-							w := b.DateCriteria.StartDateWindow
-							// windows that time.Duration can represent (about 292 years); larger ones
-							// saturate in AsDuration (observation F6) and are outside this obligation
-							if zz.And(w.Seconds >= 0, w.Seconds < 9_000_000_000) {
-								zz.Assert(zz.Not(zz.TimeLt(start, now.Add(-w.AsDuration()))), "C11 Put succeeds only for batches starting within the basket's start date window before block time")
-							}
-						case b.DateCriteria.YearsInThePast != 0:
-							first := time.Date(now.Year()-int(b.DateCriteria.YearsInThePast), 1, 1, 0, 0, 0, 0, time.UTC)
-							zz.Assert(zz.Not(zz.TimeLt(start, first)), "C11 Put succeeds only for batches starting in or after the year block time minus years_in_the_past")
+	zzvRunStep(req, func(k Keeper, ctx context.Context) error { _, err := k.Put(ctx, req); return err }, zzvPutHook(req))
+}
+
+// Put of exactly two credits (the same batch may be named twice; two batches of one class;
+// ...), light obligation set: the quick-tier complement of Step_BasketPut at list=1.
+func VerifHarness_Step_BasketPutTwo() {
+	zzinv.Light = true
+	req := &types.MsgPut{}
+	zzvRunStep(req, func(k Keeper, ctx context.Context) error {
+		zz.Assume(len(req.Credits) == 2)
+		_, err := k.Put(ctx, req)
+		return err
+	}, zzvPutHook(req))
+}
+
+func zzvPutHook(req *types.MsgPut) func(s *zzinv.Step) {
+	return func(s *zzinv.Step) {
+		if s.Err == nil {
+			var b api.Basket
+			found := zz.OrmLookup0(zzinv.TBasket, "BasketDenom", &b, req.BasketDenom)
+			zz.Assert(found, "C05 Put succeeds only into an existing basket")
+			total := zz.QInt(0)
+			for _, c := range req.Credits {
+				total = zz.QAdd(total, zz.QParse(c.Amount))
+				// C11 (only-if direction): class allowed, credit type matches
+				var bt baseapi.Batch
+				bf := zz.OrmLookup0(zzinv.TBatch, "Denom", &bt, c.BatchDenom)
+				classID := base.GetClassIDFromBatchDenom(bt.Denom)
+				var cl baseapi.Class
+				cf := zz.OrmLookup0(zzinv.TClass, "Id", &cl, classID)
+				zz.Assert(zz.And(bf, zz.OrmExists0(zzinv.TBasketClass, b.Id, classID)), "C11 Put succeeds only for credits whose class is on the basket's allowed list")
+				zz.Assert(zz.And(cf, zz.StrEq(cl.CreditTypeAbbrev, b.CreditTypeAbbrev)), "C11 Put succeeds only for credits of the basket's credit type")
+				// C11 (only-if direction): every credit's batch satisfies the date criteria
+				if b.DateCriteria != nil && bt.StartDate != nil {
+					start := bt.StartDate.AsTime()
+					now := sdk.UnwrapSDKContext(zz.Context()).BlockTime()
+					switch {
+					case b.DateCriteria.MinStartDate != nil:
+						zz.Assert(zz.Not(zz.TimeLt(start, b.DateCriteria.MinStartDate.AsTime())), "C11 Put succeeds only for batches starting at or after the basket's minimum start date")
+					case b.DateCriteria.StartDateWindow != nil:
+						w := b.DateCriteria.StartDateWindow
+						// windows that time.Duration can represent (about 292 years); larger ones
+						// saturate in AsDuration (observation F6) and are outside this obligation
+						if zz.And(w.Seconds >= 0, w.Seconds < 9_000_000_000) {
+							zz.Assert(zz.Not(zz.TimeLt(start, now.Add(-w.AsDuration()))), "C11 Put succeeds only for batches starting within the basket's start date window before block time")
 						}
+					case b.DateCriteria.YearsInThePast != 0:
+						first := time.Date(now.Year()-int(b.DateCriteria.YearsInThePast), 1, 1, 0, 0, 0, 0, time.UTC)
+						zz.Assert(zz.Not(zz.TimeLt(start, first)), "C11 Put succeeds only for batches starting in or after the year block time minus years_in_the_past")
 					}
 				}
-				minted := zz.QMul(zz.QPow10(zzinv.Precision), total)
-				zz.Label("put.minted.expected", minted)
-				zz.Label("put.owner.delta", zz.QSub(zz.BankBal1(s.Signer, b.BasketDenom), zz.BankBal0(s.Signer, b.BasketDenom)))
-				zz.Label("put.supply.delta", zz.QSub(zz.BankSupply1(b.BasketDenom), zz.BankSupply0(b.BasketDenom)))
-				zz.Assert(zz.QEq(zz.QSub(zz.BankBal1(s.Signer, b.BasketDenom), zz.BankBal0(s.Signer, b.BasketDenom)), minted), "C05 Put mints exactly amount x 10^precision basket tokens to the depositor")
-				zz.Assert(zz.QEq(zz.QSub(zz.BankSupply1(b.BasketDenom), zz.BankSupply0(b.BasketDenom)), minted), "C05 Put increases the token supply by exactly amount x 10^precision")
 			}
-		})
+			minted := zz.QMul(zz.QPow10(zzinv.Precision), total)
+			zz.Label("put.minted.expected", minted)
+			zz.Label("put.owner.delta", zz.QSub(zz.BankBal1(s.Signer, b.BasketDenom), zz.BankBal0(s.Signer, b.BasketDenom)))
+			zz.Label("put.supply.delta", zz.QSub(zz.BankSupply1(b.BasketDenom), zz.BankSupply0(b.BasketDenom)))
+			zz.Assert(zz.QEq(zz.QSub(zz.BankBal1(s.Signer, b.BasketDenom), zz.BankBal0(s.Signer, b.BasketDenom)), minted), "C05 Put mints exactly amount x 10^precision basket tokens to the depositor")
+			zz.Assert(zz.QEq(zz.QSub(zz.BankSupply1(b.BasketDenom), zz.BankSupply0(b.BasketDenom)), minted), "C05 Put increases the token supply by exactly amount x 10^precision")
+		}
+	}
 }
 
 func VerifHarness_Step_BasketTake() {
 	// stated bound: one Take drains at most iter+1 basket balances
 	zz.AssumeLoopBound("keeper.Keeper).Take", zz.Bound("iter", 1)+1)
 	req := &types.MsgTake{}
-	var resp *types.MsgTakeResponse
-	zzvRunStep(req, func(k Keeper, ctx context.Context) error { r, err := k.Take(ctx, req); resp = r; return err },
-		func(s *zzinv.Step) {
-			if s.Err == nil {
-				var b api.Basket
-				found := zz.OrmLookup0(zzinv.TBasket, "BasketDenom", &b, req.BasketDenom)
-				zz.Assert(found, "C05 Take succeeds only from an existing basket")
-				amt, _ := sdk.NewIntFromString(req.Amount)
-				burned := zz.QOf(amt)
-				zz.Assert(zz.QEq(zz.QSub(zz.BankBal0(s.Signer, b.BasketDenom), zz.BankBal1(s.Signer, b.BasketDenom)), burned), "C05 Take debits the owner exactly the amount taken")
-				zz.Assert(zz.QEq(zz.QSub(zz.BankSupply0(b.BasketDenom), zz.BankSupply1(b.BasketDenom)), burned), "C05 Take burns exactly the amount taken")
-				// credits released in total = amount / 10^precision, all to the owner
-				released := zz.SumDelta(zzinv.TBatchBalance, func(r *baseapi.BatchBalance) zz.Q {
-					return zz.QIf(zz.BytesEq(r.Address, s.Signer), zz.QAdd(zz.QParse(r.TradableAmount), zz.QParse(r.RetiredAmount)), zz.QInt(0))
-				})
-				zz.Assert(zz.QEq(zz.QMul(zz.QPow10(zzinv.Precision), released), burned), "C05 Take releases amount / 10^precision credits in total")
-				// C11: auto-retire
-				gotTradable := zz.SumDelta(zzinv.TBatchBalance, func(r *baseapi.BatchBalance) zz.Q {
-					return zz.QIf(zz.BytesEq(r.Address, s.Signer), zz.QParse(r.TradableAmount), zz.QInt(0))
-				})
-				zz.Assert(zz.Implies(zz.Not(b.DisableAutoRetire), zz.QEq(gotTradable, zz.QInt(0))), "C11 credits taken from a basket with auto-retire enabled are never delivered tradable")
-				// C11: oldest first: if a balance of the basket was reduced, every balance that sorts
-				// before it (start date, then denom) is gone
-				d := zz.NondetAtom("earlier-denom*")
-				var r1 api.BasketBalance
-				e1pre := zz.OrmRow0(zzinv.TBasketBalance, &r1, b.Id, d)
-				e1post := zz.OrmExists1(zzinv.TBasketBalance, b.Id, d)
-				zz.Assert(zz.AllWritten2(zzinv.TBasketBalance, func(pre *api.BasketBalance, pe bool, post *api.BasketBalance, qe bool) bool {
-					reduced := zz.And(pe, zz.Or(zz.Not(qe), zz.QLt(zz.QParse(post.Balance), zz.QParse(pre.Balance))))
-					earlier := zz.And(e1pre, zzinv.BalanceBefore(&r1, pre))
-					return zz.Implies(zz.And(reduced, zz.And(earlier, pre.BasketId == b.Id)), zz.Not(e1post))
-				}), "C11 Take drains the batch with the earliest start date completely before touching a later one")
-				_ = resp
-			}
-		})
+	zzvRunStep(req, func(k Keeper, ctx context.Context) error { _, err := k.Take(ctx, req); return err }, zzvTakeHook(req))
+}
+
+// Take that spans two basket balances (the oldest is drained, a second one drained or
+// reduced): run with iter=2 (a basket may hold two balances), light obligation set, and only
+// the executions that wrote two basket balances or failed - the single-balance executions
+// are those of Step_BasketTake.
+func VerifHarness_Step_BasketTakeTwo() {
+	zzinv.Light = true
+	zz.AssumeLoopBound("keeper.Keeper).Take", 2)
+	req := &types.MsgTake{}
+	zzvRunStep(req, func(k Keeper, ctx context.Context) error {
+		_, err := k.Take(ctx, req)
+		zz.Assume(zz.Or(err != nil, zz.OrmWrites(zzinv.TBasketBalance) >= 2))
+		return err
+	}, zzvTakeHook(req))
+}
+
+func zzvTakeHook(req *types.MsgTake) func(s *zzinv.Step) {
+	return func(s *zzinv.Step) {
+		if s.Err == nil {
+			var b api.Basket
+			found := zz.OrmLookup0(zzinv.TBasket, "BasketDenom", &b, req.BasketDenom)
+			zz.Assert(found, "C05 Take succeeds only from an existing basket")
+			amt, _ := sdk.NewIntFromString(req.Amount)
+			burned := zz.QOf(amt)
+			zz.Assert(zz.QEq(zz.QSub(zz.BankBal0(s.Signer, b.BasketDenom), zz.BankBal1(s.Signer, b.BasketDenom)), burned), "C05 Take debits the owner exactly the amount taken")
+			zz.Assert(zz.QEq(zz.QSub(zz.BankSupply0(b.BasketDenom), zz.BankSupply1(b.BasketDenom)), burned), "C05 Take burns exactly the amount taken")
+			// credits released in total = amount / 10^precision, all to the owner
+			released := zz.SumDelta(zzinv.TBatchBalance, func(r *baseapi.BatchBalance) zz.Q {
+				return zz.QIf(zz.BytesEq(r.Address, s.Signer), zz.QAdd(zz.QParse(r.TradableAmount), zz.QParse(r.RetiredAmount)), zz.QInt(0))
+			})
+			zz.Assert(zz.QEq(zz.QMul(zz.QPow10(zzinv.Precision), released), burned), "C05 Take releases amount / 10^precision credits in total")
+			// C11: auto-retire
+			gotTradable := zz.SumDelta(zzinv.TBatchBalance, func(r *baseapi.BatchBalance) zz.Q {
+				return zz.QIf(zz.BytesEq(r.Address, s.Signer), zz.QParse(r.TradableAmount), zz.QInt(0))
+			})
+			zz.Assert(zz.Implies(zz.Not(b.DisableAutoRetire), zz.QEq(gotTradable, zz.QInt(0))), "C11 credits taken from a basket with auto-retire enabled are never delivered tradable")
+			// C11: oldest first: if a balance of the basket was reduced, every balance that sorts
+			// before it (start date, then denom) is gone
+			d := zz.NondetAtom("earlier-denom*")
+			var r1 api.BasketBalance
+			e1pre := zz.OrmRow0(zzinv.TBasketBalance, &r1, b.Id, d)
+			e1post := zz.OrmExists1(zzinv.TBasketBalance, b.Id, d)
+			zz.Assert(zz.AllWritten2(zzinv.TBasketBalance, func(pre *api.BasketBalance, pe bool, post *api.BasketBalance, qe bool) bool {
+				reduced := zz.And(pe, zz.Or(zz.Not(qe), zz.QLt(zz.QParse(post.Balance), zz.QParse(pre.Balance))))
+				earlier := zz.And(e1pre, zzinv.BalanceBefore(&r1, pre))
+				return zz.Implies(zz.And(reduced, zz.And(earlier, pre.BasketId == b.Id)), zz.Not(e1post))
+			}), "C11 Take drains the batch with the earliest start date completely before touching a later one")
+		}
+	}
 }
 
 func zzvGovOnly(name string) func(s *zzinv.Step) {
